@@ -1,6 +1,6 @@
 (* C08: facts about the bounded writer, MethodResponse and the batch builder (Model/RespSize.v). *)
-From JV Require Import Base.Bytes Base.Dec Json.Json Json.JsonSer Model.Wire Gen.LimitsWiringGen Model.RespSize
-  Model.ReqLimit Proofs.BytesFacts Proofs.DecFacts Proofs.ReqLimitFacts.
+From JV Require Import Base.Bytes Base.Dec Base.Utf8 Json.Json Json.JsonSer Model.Wire Model.ErrShape Gen.LimitsWiringGen
+  Gen.ErrorConstsGen Model.RespSize Model.ReqLimit Proofs.BytesFacts Proofs.DecFacts Proofs.ReqLimitFacts.
 From Coq Require DecimalN DecimalPos DecimalFacts Decimal.
 Local Open Scope N_scope.
 Arguments N.add : simpl never.
@@ -312,39 +312,113 @@ Proof.
   unfold ser_errobj. rewrite !blen_app. destruct (e_data e); rewrite ?blen_app; cbn; lia.
 Qed.
 
-Lemma esc_exceeded_const : escape_body b#"Exceeded max limit of " = b#"Exceeded max limit of ".
-Proof. vm_compute. reflexivity. Qed.
-Lemma blen_exceeded_const : blen b#"Exceeded max limit of " = 22.
-Proof. vm_compute. reflexivity. Qed.
+Lemma escape_body_app : forall a b', escape_body (a ++ b') = escape_body a ++ escape_body b'.
+Proof. induction a as [|c a IH]; intro b'; cbn [app escape_body]; [reflexivity|]. rewrite IH, app_assoc. reflexivity. Qed.
 
-Lemma blen_exceeded_data lim : blen (RespSize.exceeded_data lim) = 24 + blen (print_N lim).
+Lemma escape_body_digits : forall s, forallb is_digit s = true -> escape_body s = s.
 Proof.
-  unfold RespSize.exceeded_data, ser_str. rewrite blen_cons, blen_app.
-  assert (E : forall s, forallb is_digit s = true -> escape_body s = s).
-  { induction s as [|c s IH]; cbn [forallb escape_body]; [reflexivity|]. intro H. apply andb_true_iff in H as [Hc Hs].
-    rewrite (IH Hs). clear IH Hs. destruct c; try discriminate Hc; reflexivity. }
-  assert (E2 : forall a b', escape_body (a ++ b') = escape_body a ++ escape_body b').
-  { induction a as [|c a IH]; intro b'; cbn [app escape_body]; [reflexivity|]. rewrite IH, app_assoc. reflexivity. }
-  rewrite E2, (E (print_N lim)) by apply print_N_digits. rewrite esc_exceeded_const, !blen_app, blen_exceeded_const.
+  induction s as [|c s IH]; cbn [forallb escape_body]; [reflexivity|]. intro H. apply andb_true_iff in H as [Hc Hs].
+  rewrite (IH Hs). clear IH Hs. destruct c; try discriminate Hc; reflexivity.
+Qed.
+
+(* the data member of the limit errors: the JSON string "<prefix><limit>", for a prefix that needs no escapes *)
+Lemma blen_limit_data p lim : escape_body p = p -> blen (limit_data p lim) = 2 + blen p + blen (print_N lim).
+Proof.
+  intro E. unfold limit_data, ser_str. rewrite blen_cons, blen_app, escape_body_app, E.
+  rewrite (escape_body_digits (print_N lim)) by apply print_N_digits. rewrite blen_app.
   change (blen [x22]) with 1. lia.
 Qed.
 
-Ltac vmc t := let v := eval vm_compute in t in replace t with v by (vm_compute; reflexivity).
+(* ---------- the generated constants: what the proofs below (and C01/C02's well-formedness lemmas) compute with.
+   Everything here is decided by evaluating the constants of Gen/ErrorConstsGen.v: a code outside the i32 range or
+   equal to another one, a message that needs JSON escapes or is not UTF-8, a message or data prefix that makes an
+   error object longer than the bound of fixed_error_bound -- and this file no longer builds. ---------- *)
+Fixpoint nodupb_Z (l : list Z) : bool :=
+  match l with [] => true | x :: l' => negb (existsb (Z.eqb x) l') && nodupb_Z l' end.
+Lemma nodupb_Z_sound l : nodupb_Z l = true -> NoDup l.
+Proof.
+  induction l as [|x l IH]; cbn [nodupb_Z]; intro H; [constructor|]. apply andb_true_iff in H as [H1 H2].
+  constructor; [|apply IH, H2]. intro Hin. apply negb_true_iff in H1.
+  assert (E : existsb (Z.eqb x) l = true) by (apply existsb_exists; exists x; split; [exact Hin | apply Z.eqb_refl]).
+  congruence.
+Qed.
+
+Ltac leaf := vm_compute; first [reflexivity | discriminate].
+Ltac in_consts := vm_compute; repeat (first [left; reflexivity | right]).
+
+Definition code_ok (c : Z) : Prop := (-2147483648 <= c < 2147483648)%Z /\ blen (print_Z c) <= 6.
+Definition msg_ok (m : bytes) : Prop := utf8_valid m = true /\ escape_body m = m /\ blen m <= 72.
+Definition limit_shape_ok (sh : shape) : Prop :=
+  In (sh_code sh) all_error_codes /\ In (sh_msg sh) all_error_msgs /\
+  exists p, sh_prefix sh = Some p /\ utf8_valid p = true /\ escape_body p = p /\ blen (sh_msg sh) + blen p <= 62.
+
+Lemma consts_pinned :
+  NoDup all_error_codes /\
+  Forall (fun c => (-2147483648 <= c < 2147483648)%Z /\ blen (print_Z c) <= 6) all_error_codes /\
+  Forall (fun m => utf8_valid m = true /\ escape_body m = m /\ blen m <= 72) all_error_msgs /\
+  Forall (fun sh => In (sh_code sh) all_error_codes /\ In (sh_msg sh) all_error_msgs /\
+                    exists p, sh_prefix sh = Some p /\ utf8_valid p = true /\ escape_body p = p /\
+                              blen (sh_msg sh) + blen p <= 62) limit_shapes /\
+  Forall (fun cm => In (fst cm) all_error_codes /\ In (snd cm) all_error_msgs) errorcode_pairs /\
+  In batches_not_supported_code all_error_codes /\ In batches_not_supported_msg all_error_msgs.
+Proof.
+  split; [apply nodupb_Z_sound; vm_compute; reflexivity|].
+  split; [unfold all_error_codes; repeat (apply Forall_cons; [split; [split; leaf | leaf]|]); apply Forall_nil|].
+  split; [unfold all_error_msgs; repeat (apply Forall_cons; [split; [leaf | split; leaf]|]); apply Forall_nil|].
+  split; [unfold limit_shapes;
+          repeat (apply Forall_cons; [split; [in_consts | split; [in_consts | eexists; split; [reflexivity | split; [leaf | split; leaf]]]]|]);
+          apply Forall_nil|].
+  split; [unfold errorcode_pairs; repeat (apply Forall_cons; [split; in_consts|]); apply Forall_nil|].
+  split; in_consts.
+Qed.
+
+Lemma code_ok_in c : In c all_error_codes -> code_ok c.
+Proof. intro H. destruct consts_pinned as (_ & F & _). rewrite Forall_forall in F. exact (F c H). Qed.
+Lemma msg_ok_in m : In m all_error_msgs -> msg_ok m.
+Proof. intro H. destruct consts_pinned as (_ & _ & F & _). rewrite Forall_forall in F. exact (F m H). Qed.
+Lemma limit_shape_ok_in sh : In sh limit_shapes -> limit_shape_ok sh.
+Proof. intro H. destruct consts_pinned as (_ & _ & _ & F & _). rewrite Forall_forall in F. exact (F sh H). Qed.
+
+(* an error object made of generated constants, without / with the limit in its data *)
+Lemma fixed_shape_bound i c m lim :
+  In c all_error_codes -> In m all_error_msgs ->
+  blen (error_response i (fixed_err (c, m, None))) <= 132 + blen (print_N lim) + blen (ser_id i).
+Proof.
+  intros Hc Hm. destruct (code_ok_in c Hc) as [_ Lc]. destruct (msg_ok_in m Hm) as (_ & Em & Lm).
+  rewrite blen_error_response, blen_ser_errobj. unfold fixed_err, shape_err, sh_code, sh_msg, sh_prefix.
+  cbn [e_code e_message e_data fst snd]. unfold ser_str. rewrite Em, blen_cons, blen_app. change (blen [x22]) with 1. lia.
+Qed.
+
+Lemma limit_shape_bound i sh lim :
+  In sh limit_shapes ->
+  blen (error_response i (shape_err sh lim)) <= 132 + blen (print_N lim) + blen (ser_id i).
+Proof.
+  intro H. destruct (limit_shape_ok_in sh H) as (Hc & Hm & p & Ep & _ & Esc & Lp).
+  destruct (code_ok_in _ Hc) as [_ Lc]. destruct (msg_ok_in _ Hm) as (_ & Em & _).
+  rewrite blen_error_response, blen_ser_errobj. unfold shape_err. cbn [e_code e_message e_data]. rewrite Ep.
+  rewrite (blen_limit_data p lim Esc). unfold ser_str. rewrite Em, blen_cons, blen_app. change (blen [x22]) with 1. lia.
+Qed.
 
 Lemma fixed_error_bound :
   forall lim i e, In e (fixed_errors lim) ->
     blen (error_response i e) <= 132 + blen (print_N lim) + blen (ser_id i).
 Proof.
-  intros lim i e H. rewrite blen_error_response, blen_ser_errobj.
+  intros lim i e H. destruct consts_pinned as (_ & _ & _ & _ & Fp & Bc & Bm). rewrite Forall_forall in Fp.
+  assert (P : forall c m, In (c, m) errorcode_pairs ->
+                blen (error_response i (fixed_err (c, m, None))) <= 132 + blen (print_N lim) + blen (ser_id i)).
+  { intros c m Hin. destruct (Fp _ Hin) as [Hc Hm]. apply fixed_shape_bound; assumption. }
   unfold fixed_errors in H.
-  repeat (destruct H as [<- | H];
-          [cbn [e_code e_message e_data oversized_response_error too_big_batch_response_error
-                invalid_request_error internal_error]; rewrite ?blen_exceeded_data;
-           repeat match goal with
-                  | |- context [blen (print_Z ?z)] => vmc (blen (print_Z z))
-                  | |- context [blen (ser_str ?m)] => vmc (blen (ser_str m))
-                  end; lia |]).
-  destruct H.
+  destruct H as [<- | [<- | [<- | [<- | [<- | [<- | [<- | [<- | [<- | [<- | []]]]]]]]]]].
+  - apply (P parse_error_code parse_error_msg); in_consts.
+  - apply (P invalid_request_code invalid_request_msg); in_consts.
+  - apply (P method_not_found_code method_not_found_msg); in_consts.
+  - apply (P internal_error_code internal_error_msg); in_consts.
+  - apply (fixed_shape_bound i batches_not_supported_code batches_not_supported_msg lim); assumption.
+  - apply (limit_shape_bound i reject_too_many_subscriptions_shape lim); in_consts.
+  - apply (limit_shape_bound i reject_too_big_request_shape lim); in_consts.
+  - apply (limit_shape_bound i oversized_response_shape lim); in_consts.
+  - apply (limit_shape_bound i reject_too_big_batch_request_shape lim); in_consts.
+  - apply (limit_shape_bound i reject_too_big_batch_response_shape lim); in_consts.
 Qed.
 
 (* for every limit a usize can hold: a constant plus the echoed id *)
